@@ -19,8 +19,9 @@
 (*            limit, sequential iteration, sorted_entries, ...):           *)
 (*            ok = it did not raise, items = <<id, type, content>> it      *)
 (*            produced                                                     *)
-(*   entries  sequence of [name, ok, items]: entry listings of the         *)
-(*            implementation, items = <<id, off limb, crc pair>>           *)
+(*   entries  sequence of [name, ok, full, items]: entry listings of the   *)
+(*            implementation, items = <<id, off limb, crc pair>>; full =   *)
+(*            a listing of every entry (else: one lookup per name)         *)
 (*   depthcap for "git": the --depth given to pack-objects (-1: none)      *)
 (*                                                                         *)
 (* Verdict: <<"VERDICT", tid, property clauses failed, shape clauses       *)
@@ -64,8 +65,11 @@ ReadClauses(t, i) ==
 
 \* an entry listing of the implementation (sorted_entries, index iterentries) is the pack's own truth
 ListingOK(t, r) ==
+    LET got == { <<x[1], x[2]>> : x \in Rng(r.items) }
+        all == { <<t.pk.es[j].id, t.pk.es[j].off>> : j \in DOMAIN t.pk.es } IN
     /\ r.ok
-    /\ { <<x[1], x[2]>> : x \in Rng(r.items) } = { <<t.pk.es[j].id, t.pk.es[j].off>> : j \in DOMAIN t.pk.es }
+    /\ IF r.full THEN got = all     \* a listing of everything
+       ELSE got \subseteq all /\ { x[1] : x \in got } = { x[1] : x \in all }   \* one lookup per name
     /\ \A x \in Rng(r.items) : x[3] = <<-1, -1>> \/
           \E j \in DOMAIN t.pk.es : t.pk.es[j].off = x[2] /\ t.pk.es[j].crc = x[3]
 RECURSIVE ListClauses(_, _)
